@@ -182,7 +182,12 @@ def stall_cases():
     cases = []
     probes = [["SCAN", "0", "COUNT", "10", "TYPE", "string"], ["SCAN", "0", "COUNT", "10", "TYPE", "hash"], ["SCAN", "0", "MATCH", "s*", "COUNT", "2"],
               ["KEYS", "*"], ["LPUSH", "s1", "x"], ["HGET", "s1", "f"], ["INCR", "h1"], ["SINTER", "t1", "s1"], ["ZUNIONSTORE", "d", "2", "z1", "s1"],
-              ["RENAME", "nosuch", "s1"], ["LSET", "l1", "9", "x"], ["SMOVE", "t1", "s1", "a"], ["EXISTS", "s1", "s1"], ["MGET", "s1", "h1"], ["TYPE", "s1"]]
+              ["RENAME", "nosuch", "s1"], ["LSET", "l1", "9", "x"], ["SMOVE", "t1", "s1", "a"], ["EXISTS", "s1", "s1"], ["MGET", "s1", "h1"], ["TYPE", "s1"],
+              # a destination that is also an operand (the property names ZUNIONSTORE d 2 d x), and the radius that made a GEO query spin
+              ["ZUNIONSTORE", "z1", "1", "z1"], ["ZUNIONSTORE", "z1", "2", "z1", "nosuch"], ["ZINTERSTORE", "z1", "1", "z1"], ["ZINTERSTORE", "z1", "2", "z1", "z1"],
+              ["SUNIONSTORE", "t1", "2", "t1", "nosuch"], ["SINTERSTORE", "t1", "1", "t1"], ["SDIFFSTORE", "t1", "2", "t1", "nosuch"], ["SMOVE", "t1", "t1", "a"],
+              ["RENAME", "s1", "s1"], ["RENAMENX", "s1", "s1"], ["RPOPLPUSH", "l1", "l1"], ["LPOPRPUSH", "l1", "l1"],
+              ["GEORADIUS", "z1", "10", "10", "-1", "km"], ["GEORADIUSBYMEMBER", "z1", "a", "-5", "m"], ["GEORADIUS", "l1", "-1", "1", "-1", "m"]]
     for i, pr in enumerate(probes):
         cases.append(("stall-%d-%s" % (i, pr[0]), "mem", mk + [op(0, *pr)] + touch))
     return cases
